@@ -254,7 +254,7 @@ def _model_requests(p):
     else:
         try:
             base = m.parse.class_(copy.deepcopy(tree))
-            reqs.append(dumps([Sym("c07_class_merge"), [k for k in base["params"]], dw, fw]))
+            reqs.append(dumps([Sym("c07_class_merge"), irwire.enc_ir(base), dw, fw]))
         except Exception:  # noqa
             pass
     return reqs
